@@ -1,6 +1,6 @@
 From Coq Require Import Extraction ExtrOcamlBasic.
-From LV Require Import Lib.Bytes Lib.Prelude Wire.CompactSize Wire.Tx Model.C04.
+From LV Require Import Lib.Bytes Lib.Prelude Wire.CompactSize Wire.Tx Model.C04 Model.C04_Obj.
 Extraction Language OCaml.
 Extraction "c04_model.ml"
   prelude_byte_of_N prelude_N_of_byte prelude_Z_of_N prelude_Z_opp prelude_nat_of_N prelude_N_of_nat
-  sighash_preimage sighash_spec channel_pieces legacy_pieces outpoint_bytes serialize.
+  sighash_preimage sighash_spec channel_pieces legacy_pieces outpoint_bytes serialize ostep obj_pieces.
